@@ -27,6 +27,8 @@ TOTALS = {
 _BY_LEAVES = {v: k for k, v in TOTALS.items()}
 PARTIALS = ("A", "B")
 SYMBOLS = ("eager", "lazy", "reflect", "normalize", "sequential", "moment_matching", "memo", "A", "B", "tape")
+PERSISTENT_TAPE = "T0"  # one AdjointTape INSTANCE per history, re-entered sequentially (never while it is active)
+ALL_SYMBOLS = SYMBOLS + (PERSISTENT_TAPE,)
 BASE = ("reflect", "eager")
 OVERFLOW = 10  # PrioritizedInterpretation refuses chains of this many leaves or more
 
@@ -72,6 +74,8 @@ def sym_kind(sym):
         return "total"
     if sym in PARTIALS:
         return "partial"
+    if sym == PERSISTENT_TAPE:
+        return "tape"
     return sym  # "memo" | "tape"
 
 
@@ -203,8 +207,11 @@ class StackModel:
         return tuple(self.symbols)
 
 
-def menu(depth, symbols, max_depth, internal_ks="all"):
-    """Events enabled in a state with ``depth`` open user blocks (simplest first)."""
+def menu(depth, symbols, max_depth, internal_ks="all", on_stack=()):
+    """Events enabled in a state with ``depth`` open user blocks (simplest first).  The persistent tape T0 can be
+    entered only while it is not active; while it is active its place in the menu is taken by a fresh tape."""
+    if PERSISTENT_TAPE in symbols and PERSISTENT_TAPE in on_stack:
+        symbols = tuple("tape" if s == PERSISTENT_TAPE else s for s in symbols)
     ev = [("probe",)]
     if depth >= 1:
         ev.append(("exit",))
